@@ -18,7 +18,7 @@ MODELS = {
     'sheets': dict(cells={'Sheet1!A1': 4, 'Data!A1': 10, 'My Sheet!A1': 7, 'Data!B1': '=A1*2', 'Sheet1!B1': "=Data!B1+'My Sheet'!A1",
                           'Sheet1!C1': '=SUM(Data!A1:B1)', 'My Sheet!B1': '=Sheet1!B1&"x"'}, names={'total': 'Sheet1!$C$1'}),
 }
-POINTS = ['built', 'uncompiled', 'evaluated', 'overwritten', 'evaluated-after-overwrite']
+POINTS = ['built', 'uncompiled', 'evaluated', 'overwritten', 'evaluated-then-overwritten', 'evaluated-after-overwrite']
 
 
 def full(a):
@@ -70,14 +70,14 @@ def oracle(c):
     try:
         model = build_model(cells, spec['names'] or None, build_code=(c['point'] != 'uncompiled'))
         ev = xlcalculator.Evaluator(model)
-        if c['point'] in ('evaluated', 'evaluated-after-overwrite', 'overwritten'):
+        if c['point'] in ('evaluated', 'evaluated-after-overwrite', 'overwritten', 'evaluated-then-overwritten'):
             if c['point'] != 'overwritten':
                 for a in list(model.cells):
                     try:
                         ev.evaluate(a)
                     except Exception:      # noqa
                         pass
-        if c['point'] in ('overwritten', 'evaluated-after-overwrite'):
+        if c['point'] in ('overwritten', 'evaluated-after-overwrite', 'evaluated-then-overwritten'):
             first = [a for a in model.cells if model.cells[a].formula is None][0]
             ev.set_cell_value(first, 42)
             if c['point'] == 'evaluated-after-overwrite':
@@ -132,6 +132,6 @@ DRIVERS = [
            rule='seeded random acyclic models (drivers/gen_models.py: 1-3 sheets incl. a quoted one, constants of every type with holes, formulas over cells / ranges / names) x a random point of the history x a random extension: same checks as B2.roundtrip',
            bound='12 (quick) / 3000 (thorough) models'),
     Driver('C12/B2.roundtrip', cases, oracle, nchunks=6, exhaustive=True,
-           rule='3 models (all value types: ints, floats incl. 1e300 / 5e-324 / -0.0, booleans, empty and non-ASCII text, quotes, dates, formulas yielding errors, ranges, defined names; three sheets incl. a quoted one) x 5 points of a build / evaluate / set_cell_value history x 4 file extensions (.json, .gz, .gzip, .JSON.GZ): compression by extension, equality of cells / formulae / names / ranges, equal evaluation of every cell',
+           rule='3 models (all value types: ints, floats incl. 1e300 / 5e-324 / -0.0, booleans, empty and non-ASCII text, quotes, dates, formulas yielding errors, ranges, defined names; three sheets incl. a quoted one) x 6 points of a build / evaluate / set_cell_value history (incl. evaluate, overwrite, persist without evaluating again) x 4 file extensions (.json, .gz, .gzip, .JSON.GZ): compression by extension, equality of cells / formulae / names / ranges, equal evaluation of every cell',
            bound='the listed models (complete)'),
 ]
